@@ -795,62 +795,129 @@ theorem macString_clean (bytes : Bytes) : NoComma (macString bytes) := by
     · exact absurd h2 (by decide)
     · exact Header.encode_no_comma bytes h2
 
-/-! ### the key determines the permission string and the multiset of discharge strings -/
+/-! ### the stable sort by key-id -/
 
-theorem insertSorted_perm (x : Str) : ∀ l : List Str, (insertSorted x l).Perm (x :: l)
-  | [] => by simp [insertSorted]
-  | y :: ys => by
-    simp only [insertSorted]
-    split
-    · exact ((insertSorted_perm x ys).cons y).trans (List.Perm.swap x y ys)
-    · exact List.Perm.refl _
+theorem bytes_lt_irrefl : ∀ a : Bytes, Bytes.lt a a = false
+  | [] => rfl
+  | x :: xs => by simp [Bytes.lt, bytes_lt_irrefl xs]
 
-theorem sortStrs_perm : ∀ l : List Str, (sortStrs l).Perm l
-  | [] => by simp [sortStrs]
-  | x :: xs => by
-    simp only [sortStrs]
-    exact (insertSorted_perm x _).trans ((sortStrs_perm xs).cons x)
+theorem before_kid_ne {y x : Tok} (h : before .byKid y x = true) : kidOf y ≠ kidOf x := by
+  intro e
+  simp only [before, e, bytes_lt_irrefl] at h
+  exact Bool.false_ne_true h
 
-theorem insertTok_perm (x : Tok) : ∀ l : List Tok, (insertTok x l).Perm (x :: l)
+theorem insertTok_perm (ko : KeyOrder) (x : Tok) : ∀ l : List Tok, (insertTok ko x l).Perm (x :: l)
   | [] => by simp [insertTok]
   | y :: ys => by
     simp only [insertTok]
     split
-    · exact ((insertTok_perm x ys).cons y).trans (List.Perm.swap x y ys)
+    · exact ((insertTok_perm ko x ys).cons y).trans (List.Perm.swap x y ys)
     · exact List.Perm.refl _
 
-theorem sortToks_perm : ∀ l : List Tok, (sortToks l).Perm l
+theorem sortToks_perm (ko : KeyOrder) : ∀ l : List Tok, (sortToks ko l).Perm l
   | [] => by simp [sortToks]
   | x :: xs => by
     simp only [sortToks]
-    exact (insertTok_perm x _).trans ((sortToks_perm xs).cons x)
+    exact (insertTok_perm ko x _).trans ((sortToks_perm ko xs).cons x)
 
-/-- **key_injective**: over comma-free strings the cache key determines the permission string and
-the multiset of candidate discharge strings -/
-theorem key_injective (p p' : Str) (ds ds' : List Str) (hp : NoComma p) (hp' : NoComma p')
-    (hd : ∀ d ∈ ds, NoComma d) (hd' : ∀ d ∈ ds', NoComma d) (h : key p ds = key p' ds') :
-    p = p' ∧ ds.Perm ds' := by
-  unfold key at h
-  have c1 : ∀ x ∈ sortStrs ds ++ [p], ',' ∉ x := by
+/-- the candidates for one ticket, in the order given -/
+def forKid (k : Bytes) (l : List Tok) : List Tok := l.filter fun t => decide (kidOf t = k)
+
+theorem insertTok_forKid (k : Bytes) (x : Tok) : ∀ l : List Tok,
+    forKid k (insertTok .byKid x l) = forKid k (x :: l)
+  | [] => rfl
+  | y :: ys => by
+    simp only [insertTok]
+    split
+    · rename_i hb
+      have hne := before_kid_ne hb
+      have ih := insertTok_forKid k x ys
+      simp only [forKid, List.filter_cons] at ih ⊢
+      rw [ih]
+      by_cases hx : kidOf x = k
+      · have hy : kidOf y ≠ k := fun e => hne (e.trans hx.symm)
+        simp [hx, hy]
+      · simp [hx]
+    · rfl
+
+/-- **the stable sort keeps, for every ticket, the candidates in the order presented** -/
+theorem sortToks_forKid (k : Bytes) : ∀ l : List Tok, forKid k (sortToks .byKid l) = forKid k l
+  | [] => rfl
+  | x :: xs => by
+    simp only [sortToks]
+    rw [insertTok_forKid]
+    have ih := sortToks_forKid k xs
+    simp only [forKid, List.filter_cons] at ih ⊢
+    rw [ih]
+
+/-! ### token text determines the macaroon (hence the key-id) -/
+
+/-- what the tokeniser and the codec make of a token's text -/
+def macOf (s : Str) : Option M := (ofHeaderTok (Header.classifyPart s)).mac?
+
+/-- the token's macaroon is what its text decodes to under `μ` (`macOf` for the real codec) -/
+def Synced (μ : Str → Option M) (t : Tok) : Prop := t.mac? = μ t.str
+
+def kidOfText (μ : Str → Option M) (s : Str) : Bytes := ((μ s).map fun m => m.nonce.kid).getD []
+
+theorem kidOf_synced {μ : Str → Option M} {t : Tok} (h : Synced μ t) : kidOf t = kidOfText μ t.str := by
+  unfold Synced at h
+  simp only [kidOf, Tok.kid?, kidOfText, h]
+
+theorem parseToks_synced (h : Str) : ∀ t ∈ parseToks h, Synced macOf t := by
+  intro t ht
+  simp only [parseToks, Header.parseToks, List.mem_map] at ht
+  obtain ⟨x, ⟨part, _, rfl⟩, rfl⟩ := ht
+  simp only [Synced, macOf, Header.parseTok, ofHeaderTok_str, Macaroon.Header.classifyPart_str]
+
+theorem forKid_map_str {μ : Str → Option M} (k : Bytes) : ∀ l : List Tok, (∀ t ∈ l, Synced μ t) →
+    (forKid k l).map Tok.str = (l.map Tok.str).filter fun s => decide (kidOfText μ s = k)
+  | [], _ => rfl
+  | t :: ts, h => by
+    have ht := kidOf_synced (h t (by simp))
+    have ih := forKid_map_str (μ := μ) k ts (fun x hx => h x (List.mem_cons_of_mem _ hx))
+    simp only [forKid, List.filter_cons, List.map_cons] at ih ⊢
+    rw [← ht]
+    by_cases hk : kidOf t = k
+    · simp [hk, ih]
+    · simp [hk, ih]
+
+/-- synced candidate lists whose sorted texts agree have, for every ticket, the same ordered texts -/
+theorem perKid_of_sorted {μ : Str → Option M} (ds ds' : List Tok) (h : ∀ t ∈ ds, Synced μ t) (h' : ∀ t ∈ ds', Synced μ t)
+    (e : (sortToks .byKid ds).map Tok.str = (sortToks .byKid ds').map Tok.str) (k : Bytes) :
+    (forKid k ds).map Tok.str = (forKid k ds').map Tok.str := by
+  have s1 : ∀ t ∈ sortToks .byKid ds, Synced μ t := fun t ht => h t ((sortToks_perm _ ds).mem_iff.mp ht)
+  have s2 : ∀ t ∈ sortToks .byKid ds', Synced μ t := fun t ht => h' t ((sortToks_perm _ ds').mem_iff.mp ht)
+  rw [← sortToks_forKid k ds, ← sortToks_forKid k ds', forKid_map_str k _ s1, forKid_map_str k _ s2, e]
+
+/-! ### the key determines the permission text and the sorted candidate texts -/
+
+/-- **key_injective**: over comma-free text, equal keys mean the same permission text and the same
+sequence of candidate texts after sorting -/
+theorem key_injective (ko : KeyOrder) (p p' : Tok) (ds ds' : List Tok) (hp : NoComma p.str) (hp' : NoComma p'.str)
+    (hd : ∀ d ∈ ds, NoComma d.str) (hd' : ∀ d ∈ ds', NoComma d.str) (h : keyOf ko p ds = keyOf ko p' ds') :
+    p.str = p'.str ∧ (sortToks ko ds).map Tok.str = (sortToks ko ds').map Tok.str := by
+  unfold keyOf at h
+  have c1 : ∀ x ∈ (sortToks ko ds).map Tok.str ++ [p.str], ',' ∉ x := by
     intro x hx
     rcases List.mem_append.mp hx with h1 | h1
-    · exact hd x ((sortStrs_perm ds).mem_iff.mp h1)
+    · obtain ⟨t, ht, rfl⟩ := List.mem_map.mp h1
+      exact hd t ((sortToks_perm ko ds).mem_iff.mp ht)
     · simp at h1; subst h1; exact hp
-  have c2 : ∀ x ∈ sortStrs ds' ++ [p'], ',' ∉ x := by
+  have c2 : ∀ x ∈ (sortToks ko ds').map Tok.str ++ [p'.str], ',' ∉ x := by
     intro x hx
     rcases List.mem_append.mp hx with h1 | h1
-    · exact hd' x ((sortStrs_perm ds').mem_iff.mp h1)
+    · obtain ⟨t, ht, rfl⟩ := List.mem_map.mp h1
+      exact hd' t ((sortToks_perm ko ds').mem_iff.mp ht)
     · simp at h1; subst h1; exact hp'
   have e := congrArg (Header.splitOn ',') h
   rw [Header.splitOn_joinWith ',' _ (by simp) c1, Header.splitOn_joinWith ',' _ (by simp) c2] at e
-  have hlen : (sortStrs ds).length = (sortStrs ds').length := by
+  have hlen : ((sortToks ko ds).map Tok.str).length = ((sortToks ko ds').map Tok.str).length := by
     have := congrArg List.length e
     simp at this
-    exact this
+    simpa using this
   obtain ⟨e1, e2⟩ := List.append_inj e hlen
-  refine ⟨by simpa using e2, ?_⟩
-  exact (sortStrs_perm ds).symm.trans (e1 ▸ sortStrs_perm ds')
-
+  exact ⟨by simpa using e2, e1⟩
 
 /-! ### cleanliness is kept by every operation of a history -/
 
@@ -947,18 +1014,138 @@ theorem clean_dischargeWith (sc : Bundle.DischargeScope) (b : Bundle) (loc ka : 
     · obtain ⟨tr, _, htr⟩ := mem_of_map_eq_map_some ((mapM_some_iff _ _ _).mp hds) t h1
       exact dischargeOne_clean htr
 
+/-! ### text/macaroon agreement is kept by every operation of a history -/
+
+def SyncedB (μ : Str → Option M) (b : Bundle) : Prop := ∀ t ∈ b.ts, Synced μ t
+
+/-- the codec fact that minting relies on: the text `Attenuate` / `Discharge` print for a new token
+decodes (under `μ`) to the token they store — the round trip `decode_encode_mac` of C11 for `macOf` -/
+structure MintSynced (μ : Str → Option M) : Prop where
+  att : ∀ items m s' m' added, Bundle.attMac items m = some (s', m', added) → μ s' = some m'
+  dis : ∀ loc ka cb ticket rnd d, Bundle.dischargeOne loc ka cb ticket rnd = some d → Synced μ d
+
+theorem synced_parseWith (pl : Bytes) (h : Str) (f : Filter) : SyncedB macOf (Bundle.parseWith pl h f).1 :=
+  fun t ht => parseToks_synced h t (applyMask_mem ht)
+
+theorem synced_filter {μ : Str → Option M} (b : Bundle) (f : Filter) (c : SyncedB μ b) : SyncedB μ (b.filter f) :=
+  fun t ht => c t ((applyMask_sublist _ _).subset ht)
+
+theorem synced_verifyBy {μ : Str → Option M} (b : Bundle) (o : Bundle.Oracle) (c : SyncedB μ b) : SyncedB μ (b.verifyBy o) := by
+  intro t' ht'
+  simp only [Bundle.verifyBy, Bundle.verifyTs, List.mem_map] at ht'
+  obtain ⟨t, ht, rfl⟩ := ht'
+  split
+  · simp only [Synced, verdict_mac?, verdict_str]; exact c t ht
+  · exact c t ht
+
+theorem attTok_synced {μ : Str → Option M} (hm : MintSynced μ) (items : List (AddItem Bytes)) (t t' : Tok)
+    (h : Bundle.attTok items t = some t') (c : Synced μ t) : Synced μ t' := by
+  cases t with
+  | nonMac s => simp [Bundle.attTok] at h; subst h; exact c
+  | malformed s => simp [Bundle.attTok] at h; subst h; exact c
+  | unverified s m =>
+    simp only [Bundle.attTok, Option.map_eq_some_iff] at h
+    obtain ⟨⟨s', m', added⟩, hr, rfl⟩ := h
+    simp [Synced, Tok.mac?, Tok.str, hm.att items m s' m' added hr]
+  | verified s m cs =>
+    simp only [Bundle.attTok, Option.map_eq_some_iff] at h
+    obtain ⟨⟨s', m', added⟩, hr, rfl⟩ := h
+    simp [Synced, Tok.mac?, Tok.str, hm.att items m s' m' added hr]
+  | failed s m =>
+    simp only [Bundle.attTok, Option.map_eq_some_iff] at h
+    obtain ⟨⟨s', m', added⟩, hr, rfl⟩ := h
+    simp [Synced, Tok.mac?, Tok.str, hm.att items m s' m' added hr]
+
+theorem synced_attenuate {μ : Str → Option M} (hm : MintSynced μ) (b : Bundle) (items : List (AddItem Bytes))
+    (c : SyncedB μ b) : SyncedB μ (b.attenuate items).1 := by
+  by_cases he : (b.attenuate items).2 = true
+  · rw [attenuate_err b items he]; exact c
+  · have he' : (b.attenuate items).2 = false := by simpa using he
+    obtain ⟨_, hmap⟩ := attenuate_ok b items he'
+    intro t' ht'
+    obtain ⟨t, ht, hft⟩ := mem_of_map_eq_map_some hmap t' ht'
+    split at hft
+    · exact attTok_synced hm items t t' hft (c t ht)
+    · simp only [Option.some.injEq] at hft; subst hft; exact c t ht
+
+theorem synced_dischargeWith {μ : Str → Option M} (hm : MintSynced μ) (sc : Bundle.DischargeScope) (b : Bundle)
+    (loc ka : Bytes) (cb : Bundle.Discharger) (rnds : List Bytes) (c : SyncedB μ b) :
+    SyncedB μ (Bundle.dischargeWith sc b loc ka cb rnds).1 := by
+  by_cases he : (Bundle.dischargeWith sc b loc ka cb rnds).2 = true
+  · have h1 : (Bundle.dischargeWith sc b loc ka cb rnds).fst = b :=
+      dischargeWith_err sc b loc ka cb rnds _ (Prod.ext rfl he)
+    rw [h1]; exact c
+  · have he' : (Bundle.dischargeWith sc b loc ka cb rnds).2 = false := by simpa using he
+    obtain ⟨ds, hds, hb'⟩ := dischargeWith_ok sc b loc ka cb rnds _ (Prod.ext rfl he')
+    have hb'' : (Bundle.dischargeWith sc b loc ka cb rnds).fst = { b with ts := b.ts ++ ds } := hb'
+    rw [hb'']
+    intro t ht
+    rcases List.mem_append.mp ht with h1 | h1
+    · exact c t h1
+    · obtain ⟨tr, _, htr⟩ := mem_of_map_eq_map_some ((mapM_some_iff _ _ _).mp hds) t h1
+      exact hm.dis _ _ _ _ _ _ htr
+
+/-- the text minted for a token decodes, as far as the tokeniser and base64 go, to the bytes that were
+printed: `macOf` of it is `Concrete.decode` of those bytes -/
+theorem macOf_macString (bytes : Bytes) : macOf (macString bytes) = Concrete.decode bytes := by
+  have hc : Header.classifyPart (macString bytes) = .macaroonBytes (macString bytes) bytes := by
+    unfold Header.classifyPart macString Header.entry
+    rw [Header.cut_append '_' Header.labelV2 _ (Header.macaroonLabel_no_sep (by decide))]
+    simp only [Macaroon.Base64.decode_encode]
+    rfl
+  unfold macOf
+  rw [hc]
+  simp only [ofHeaderTok]
+  cases Concrete.decode bytes <;> rfl
+
+theorem dischargeOne_spec {loc ka : Bytes} {cb : Bundle.Discharger} {ticket rnd : Bytes} {d : Tok}
+    (h : Bundle.dischargeOne loc ka cb ticket rnd = some d) :
+    ∃ dm' dm'' bytes, Concrete.encode dm' = (dm'', some bytes) ∧ d = .unverified (macString bytes) dm'' := by
+  unfold Bundle.dischargeOne at h
+  split at h
+  · simp at h
+  · split at h
+    · simp at h
+    · split at h
+      · simp at h
+      · rename_i dm' _
+        split at h
+        · simp at h
+        · rename_i dm'' bytes henc
+          simp only [Option.some.injEq] at h
+          exact ⟨dm', dm'', bytes, henc, h.symm⟩
+
+/-- for the real codec `MintSynced` is the round trip of the token codec on the tokens that
+`Attenuate` and `Discharge` print (`decode_encode_mac` of C11) -/
+theorem mintSynced_of_roundtrip
+    (h : ∀ m m' bytes, Concrete.encode m = (m', some bytes) → Concrete.decode bytes = some m') : MintSynced macOf := by
+  constructor
+  · intro items m s' m' added hr
+    obtain ⟨c, bytes, _, _, henc, rfl, _⟩ := attMac_spec items m s' m' added hr
+    rw [macOf_macString]
+    exact h _ _ _ henc
+  · intro loc ka cb ticket rnd d hd
+    obtain ⟨dm', dm'', bytes, henc, rfl⟩ := dischargeOne_spec hd
+    simp only [Synced, Tok.mac?, Tok.str, macOf_macString]
+    exact (h _ _ _ henc).symm
+
 /-! ### transparency of one cached verification -/
 
-/-- the underlying verifier is a function of the permission token's text and the multiset of the
-candidate discharges' texts -/
-def StrFun (V : Bundle.Oracle) : Prop :=
-  ∀ p p' ds ds', p.str = p'.str → (ds.map Tok.str).Perm (ds'.map Tok.str) → V p ds = V p' ds'
+/-- **the hypothesis on the underlying verifier**: its answer depends only on the permission token's
+text and, for each ticket (key-id), the ORDERED list of the texts of the candidates carrying it —
+on tokens whose macaroon is what their text decodes to.  True of the key resolver
+(`resolver_perKidFun`): for each ticket the first acceptable candidate in the order presented wins,
+and candidates for different tickets do not interact. -/
+def PerKidFun (μ : Str → Option M) (V : Bundle.Oracle) : Prop :=
+  ∀ p p' ds ds', Synced μ p → Synced μ p' → (∀ d ∈ ds, Synced μ d) → (∀ d ∈ ds', Synced μ d) → p.str = p'.str →
+    (∀ k, (forKid k ds).map Tok.str = (forKid k ds').map Tok.str) → V p ds = V p' ds'
 
 /-- an entry is right: whatever is looked up under its key, the verifier's answer is the stored one -/
-def EntryOK (V : Bundle.Oracle) (e : Entry) : Prop :=
-  ∀ p ds, NoComma p.str → (∀ d ∈ ds, NoComma d.str) → keyOf p ds = e.key → V p ds = some e.cs
+def EntryOK (μ : Str → Option M) (V : Bundle.Oracle) (e : Entry) : Prop :=
+  ∀ p ds, NoComma p.str → (∀ d ∈ ds, NoComma d.str) → Synced μ p → (∀ d ∈ ds, Synced μ d) →
+    keyOf .byKid p ds = e.key → V p ds = some e.cs
 
-def Sound (V : Bundle.Oracle) (c : Store) : Prop := ∀ e ∈ c, EntryOK V e
+def Sound (μ : Str → Option M) (V : Bundle.Oracle) (c : Store) : Prop := ∀ e ∈ c, EntryOK μ V e
 
 theorem hit_some {c : Store} {now : Int} {k : Str} {cs : CS} (h : c.hit now k = some cs) :
     ∃ e ∈ c, e.key = k ∧ e.cs = cs ∧ now < e.expiry := by
@@ -973,20 +1160,21 @@ theorem hit_some {c : Store} {now : Int} {k : Str} {cs : CS} (h : c.hit now k = 
     · simp at h
   · simp at h
 
-theorem sound_add {V : Bundle.Oracle} {c : Store} {e : Entry} (hc : Sound V c) (he : EntryOK V e) : Sound V (c.add e) := by
+theorem sound_add {μ : Str → Option M} {V : Bundle.Oracle} {c : Store} {e : Entry} (hc : Sound μ V c) (he : EntryOK μ V e) :
+    Sound μ V (c.add e) := by
   intro x hx
   rcases List.mem_append.mp hx with h1 | h1
   · exact hc x (List.mem_filter.mp h1).1
   · simp at h1; subst h1; exact he
 
-theorem sound_foldl_add {V : Bundle.Oracle} : ∀ (es : List Entry) (c : Store), Sound V c → (∀ e ∈ es, EntryOK V e) →
-    Sound V (es.foldl Store.add c)
+theorem sound_foldl_add {μ : Str → Option M} {V : Bundle.Oracle} : ∀ (es : List Entry) (c : Store), Sound μ V c →
+    (∀ e ∈ es, EntryOK μ V e) → Sound μ V (es.foldl Store.add c)
   | [], c, hc, _ => hc
   | e :: es, c, hc, hes => by
     simp only [List.foldl_cons]
     exact sound_foldl_add es _ (sound_add hc (hes e (by simp))) (fun x hx => hes x (List.mem_cons_of_mem _ hx))
 
-theorem sound_evict {V : Bundle.Oracle} {c : Store} (k : Str) (hc : Sound V c) : Sound V (c.evict k) :=
+theorem sound_evict {μ : Str → Option M} {V : Bundle.Oracle} {c : Store} (k : Str) (hc : Sound μ V c) : Sound μ V (c.evict k) :=
   fun e he => hc e (List.mem_filter.mp he).1
 
 theorem mem_dischargesOf {pl : Bytes} {ts : List Tok} {t d : Tok} (h : d ∈ dischargesOf pl ts t) : d ∈ ts := by
@@ -994,17 +1182,21 @@ theorem mem_dischargesOf {pl : Bytes} {ts : List Tok} {t d : Tok} (h : d ∈ dis
   obtain ⟨lt, _, hd⟩ := h
   exact (mem_dischargesFor.mp hd).1
 
-theorem map_str_perm {l l' : List Tok} (h : l.Perm l') : (l.map Tok.str).Perm (l'.map Tok.str) := h.map _
+/-- handing the verifier the stably sorted candidates changes nothing -/
+theorem sorted_same {μ : Str → Option M} (V : Bundle.Oracle) (hV : PerKidFun μ V) (p : Tok) (ds : List Tok)
+    (hp : Synced μ p) (hd : ∀ d ∈ ds, Synced μ d) : V p (sortToks .byKid ds) = V p ds :=
+  hV p p _ _ hp hp (fun d h => hd d ((sortToks_perm _ ds).mem_iff.mp h)) hd rfl (fun k => by rw [sortToks_forKid])
 
-/-- on clean text and a sound store the caching verifier answers what the verifier answers -/
-theorem cachedOracle_eq (V : Bundle.Oracle) (hV : StrFun V) (c : Store) (hc : Sound V c) (now : Int) (p : Tok) (ds : List Tok)
-    (hp : NoComma p.str) (hd : ∀ d ∈ ds, NoComma d.str) : cachedOracle V c now p ds = V p ds := by
+/-- on clean, synced text and a sound store the caching verifier answers what the verifier answers -/
+theorem cachedOracle_eq {μ : Str → Option M} (V : Bundle.Oracle) (hV : PerKidFun μ V) (c : Store) (hc : Sound μ V c) (now : Int)
+    (p : Tok) (ds : List Tok) (hp : NoComma p.str) (hd : ∀ d ∈ ds, NoComma d.str) (sp : Synced μ p)
+    (sd : ∀ d ∈ ds, Synced μ d) : cachedOracle .byKid V c now p ds = V p ds := by
   unfold cachedOracle
   split
   · rename_i cs hh
     obtain ⟨e, he, hk, hcs, _⟩ := hit_some hh
-    rw [hc e he p ds hp hd hk.symm, hcs]
-  · exact hV p p _ _ rfl (map_str_perm (sortToks_perm ds))
+    rw [hc e he p ds hp hd sp sd hk.symm, hcs]
+  · exact sorted_same V hV p ds sp sd
 
 theorem verifyTs_congr (pl : Bytes) (o o' : Bundle.Oracle) (ts : List Tok)
     (h : ∀ t ∈ ts, isPermAt pl t = true → o t (dischargesOf pl ts t) = o' t (dischargesOf pl ts t)) :
@@ -1017,13 +1209,15 @@ theorem verifyTs_congr (pl : Bytes) (o o' : Bundle.Oracle) (ts : List Tok)
   · simp [hp]
 
 /-- **one cached verification is the direct one** -/
-theorem verifyCached_fst (V : Bundle.Oracle) (hV : StrFun V) (c : Store) (hc : Sound V c) (now ttl : Int) (b : Bundle)
-    (hb : Clean b) : (verifyCached V c now ttl b).1 = b.verifyBy V := by
+theorem verifyCached_fst {μ : Str → Option M} (V : Bundle.Oracle) (hV : PerKidFun μ V) (c : Store) (hc : Sound μ V c)
+    (now ttl : Int) (b : Bundle) (hb : Clean b) (sb : SyncedB μ b) :
+    (verifyCached .byKid V c now ttl b).1 = b.verifyBy V := by
   simp only [verifyCached, Bundle.verifyBy]
   congr 1
   apply verifyTs_congr
   intro t ht _
-  exact cachedOracle_eq V hV c hc now t _ (hb t ht) (fun d hd => hb d (mem_dischargesOf hd))
+  exact cachedOracle_eq V hV c hc now t _ (hb t ht) (fun d hd => hb d (mem_dischargesOf hd)) (sb t ht)
+    (fun d hd => sb d (mem_dischargesOf hd))
 
 theorem mem_queries {b : Bundle} {q : Tok × List Tok} (h : q ∈ queries b) :
     q.1 ∈ b.ts ∧ ∀ d ∈ q.2, d ∈ b.ts := by
@@ -1033,9 +1227,9 @@ theorem mem_queries {b : Bundle} {q : Tok × List Tok} (h : q ∈ queries b) :
 
 /-- what a cached verification stores: only acceptances by the underlying verifier, under the key
 of the query, expiring `ttl` after now -/
-theorem mem_newEntries {V : Bundle.Oracle} {c : Store} {now ttl : Int} {qs : List (Tok × List Tok)} {e : Entry}
-    (h : e ∈ newEntries V c now ttl qs) :
-    ∃ q ∈ qs, c.hit now (keyOf q.1 q.2) = none ∧ V q.1 (sortToks q.2) = some e.cs ∧ e.key = keyOf q.1 q.2 ∧
+theorem mem_newEntries {ko : KeyOrder} {V : Bundle.Oracle} {c : Store} {now ttl : Int} {qs : List (Tok × List Tok)} {e : Entry}
+    (h : e ∈ newEntries ko V c now ttl qs) :
+    ∃ q ∈ qs, c.hit now (keyOf ko q.1 q.2) = none ∧ V q.1 (sortToks ko q.2) = some e.cs ∧ e.key = keyOf ko q.1 q.2 ∧
       e.expiry = now + ttl := by
   simp only [newEntries, List.mem_filterMap] at h
   obtain ⟨q, hq, hq'⟩ := h
@@ -1050,28 +1244,100 @@ theorem mem_newEntries {V : Bundle.Oracle} {c : Store} {now ttl : Int} {qs : Lis
     · simp at hq'
 
 /-- … and the store stays sound -/
-theorem verifyCached_sound (V : Bundle.Oracle) (hV : StrFun V) (c : Store) (hc : Sound V c) (now ttl : Int) (b : Bundle)
-    (hb : Clean b) : Sound V (verifyCached V c now ttl b).2 := by
+theorem verifyCached_sound {μ : Str → Option M} (V : Bundle.Oracle) (hV : PerKidFun μ V) (c : Store) (hc : Sound μ V c)
+    (now ttl : Int) (b : Bundle) (hb : Clean b) (sb : SyncedB μ b) : Sound μ V (verifyCached .byKid V c now ttl b).2 := by
   simp only [verifyCached]
   apply sound_foldl_add _ _ hc
   intro e he
   obtain ⟨q, hq, _, hv, hk, _⟩ := mem_newEntries he
   obtain ⟨hq1, hq2⟩ := mem_queries hq
-  intro p ds hp hd hkey
+  intro p ds hp hd sp sd hkey
   rw [hk] at hkey
-  obtain ⟨e1, e2⟩ := key_injective p.str q.1.str (ds.map Tok.str) (q.2.map Tok.str) hp (hb _ hq1)
-    (fun s hs => by obtain ⟨d, hd', rfl⟩ := List.mem_map.mp hs; exact hd d hd')
-    (fun s hs => by obtain ⟨d, hd', rfl⟩ := List.mem_map.mp hs; exact hb d (hq2 d hd')) hkey
-  rw [← hv]
-  exact hV p q.1 ds (sortToks q.2) e1 (e2.trans (map_str_perm (sortToks_perm q.2)).symm)
+  have sq : ∀ d ∈ q.2, Synced μ d := fun d hd' => sb d (hq2 d hd')
+  obtain ⟨e1, e2⟩ := key_injective .byKid p q.1 ds q.2 hp (hb _ hq1) hd (fun d hd' => hb d (hq2 d hd')) hkey
+  rw [← hv, sorted_same V hV q.1 q.2 (sb _ hq1) sq]
+  exact hV p q.1 ds q.2 sp (sb _ hq1) sd sq e1 (perKid_of_sorted ds q.2 sd sq e2)
 
+/-! ### the key resolver satisfies the hypothesis -/
+
+theorem filterMap_mac_filter (τ : Bytes) : ∀ l : List Tok,
+    (l.filterMap Tok.mac?).filter (fun m => Crypto.kidEq m.nonce.kid τ) = (forKid τ l).filterMap Tok.mac?
+  | [] => rfl
+  | t :: ts => by
+    have ih := filterMap_mac_filter τ ts
+    simp only [forKid, List.filter_cons, List.filterMap_cons] at ih ⊢
+    cases hm : t.mac? with
+    | none =>
+      by_cases hk : kidOf t = τ
+      · simp [hk, hm, ih]
+      · simp [hk, ih]
+    | some m =>
+      have hkid : kidOf t = m.nonce.kid := by simp [kidOf, Tok.kid?, hm]
+      have ih' : List.filter (fun m => m.nonce.kid == τ) (List.filterMap Tok.mac? ts) =
+          List.filterMap Tok.mac? (List.filter (fun t => decide (kidOf t = τ)) ts) := by
+        simpa [Crypto.kidEq] using ih
+      by_cases hk : m.nonce.kid = τ
+      · simp [List.filter_cons, hkid, hk, hm, Crypto.kidEq, ih']
+      · simp [List.filter_cons, hkid, hk, Crypto.kidEq, ih']
+
+theorem filterMap_mac_synced {μ : Str → Option M} : ∀ l : List Tok, (∀ t ∈ l, Synced μ t) →
+    l.filterMap Tok.mac? = (l.map Tok.str).filterMap μ
+  | [], _ => rfl
+  | t :: ts, h => by
+    have ht : t.mac? = μ t.str := h t (by simp)
+    simp only [List.filterMap_cons, List.map_cons, ht,
+      filterMap_mac_synced ts (fun x hx => h x (List.mem_cons_of_mem _ hx))]
+
+theorem forKid_sub {k : Bytes} {l : List Tok} {t : Tok} (h : t ∈ forKid k l) : t ∈ l := (List.mem_filter.mp h).1
+
+/-- **the key resolver depends on the candidates only through, per ticket, their ordered texts**
+(`PerKidFun` is discharged for `KeyResolver`, for every decoder `μ`): `verify` looks candidates up
+by ticket (`byTicket`), tries them in the order presented, and never mixes tickets -/
+theorem resolver_perKidFun (R : Bundle.Resolver) (μ : Str → Option M) : PerKidFun μ R.oracle := by
+  intro p p' ds ds' sp sp' sd sd' hstr hk
+  have hmac : p.mac? = p'.mac? := by rw [sp, sp', hstr]
+  have hby : ∀ τ, byTicket (ds.filterMap Tok.mac?) τ = byTicket (ds'.filterMap Tok.mac?) τ := by
+    intro τ
+    unfold byTicket
+    rw [filterMap_mac_filter τ ds, filterMap_mac_filter τ ds',
+      filterMap_mac_synced _ (fun t ht => sd t (forKid_sub ht)),
+      filterMap_mac_synced _ (fun t ht => sd' t (forKid_sub ht)), hk τ]
+  unfold Bundle.Resolver.oracle
+  rw [← hmac]
+  cases p.mac? with
+  | none => rfl
+  | some m =>
+    simp only [Bundle.Resolver.verifyMac]
+    cases R.key m.nonce.kid with
+    | none => rfl
+    | some key =>
+      simp only
+      rw [verify_byTicket_congr key m _ _ R.trusted (fun _ _ ticket _ => hby ticket)]
+
+/-! ### the defect this replaced: a text-sorted key in front of an order-sensitive verifier -/
+
+/-- with the candidates sorted by TEXT (the code as found) even a cold cache changes the answer:
+the inner verifier is handed `[d₂, d₁]` although the bundle presents `[d₁, d₂]`; whenever the
+verifier tells these apart (two acceptable discharges for one ticket imposing different caveats: the
+first one wins) the cached verification differs from the direct one -/
+theorem text_sorted_key_not_transparent (V : Bundle.Oracle) (now : Int) (p d₁ d₂ : Tok)
+    (hlt : strLt d₂.str d₁.str = true) (hV : V p [d₂, d₁] ≠ V p [d₁, d₂]) :
+    cachedOracle .byText V [] now p [d₁, d₂] ≠ V p [d₁, d₂] := by
+  simp only [cachedOracle, Store.hit, Store.get, List.find?_nil, sortToks, insertTok, before, hlt, if_true]
+  exact hV
+
+/-- … whereas the stable sort by key-id leaves two candidates for one ticket in the order presented -/
+theorem kid_sorted_keeps_candidates (d₁ d₂ : Tok) (h : kidOf d₁ = kidOf d₂) : sortToks .byKid [d₁, d₂] = [d₁, d₂] := by
+  simp [sortToks, insertTok, before, h, bytes_lt_irrefl]
 
 /-! ### histories -/
 
 def AllClean (s : Sys) : Prop := ∀ b ∈ s.bundles, Clean b
+def AllSynced (μ : Str → Option M) (s : Sys) : Prop := ∀ b ∈ s.bundles, SyncedB μ b
 
-/-- the invariant of a run through the cache: all token text is comma-free, every stored entry is right -/
-def Inv (V : Bundle.Oracle) (s : Sys) : Prop := AllClean s ∧ Sound V s.store
+/-- the invariant of a run through the cache: all token text is comma-free and decodes to the token's
+macaroon, every stored entry is right -/
+def Inv (μ : Str → Option M) (V : Bundle.Oracle) (s : Sys) : Prop := AllClean s ∧ AllSynced μ s ∧ Sound μ V s.store
 
 theorem clean_empty : Clean emptyBundle := fun t ht => by cases ht
 
@@ -1082,7 +1348,21 @@ theorem clean_get {s : Sys} (h : AllClean s) (i : Nat) : Clean (s.get i) := by
   | none => exact clean_empty
   | some b => exact h b (List.mem_of_getElem? hi)
 
+theorem synced_get {μ : Str → Option M} {s : Sys} (h : AllSynced μ s) (i : Nat) : SyncedB μ (s.get i) := by
+  unfold Sys.get
+  rw [List.getD_eq_getElem?_getD]
+  cases hi : s.bundles[i]? with
+  | none => exact fun t ht => by cases ht
+  | some b => exact h b (List.mem_of_getElem? hi)
+
 theorem allClean_set {s : Sys} (h : AllClean s) (i : Nat) (b : Bundle) (hb : Clean b) : AllClean (s.set i b) := by
+  intro x hx
+  rcases List.mem_or_eq_of_mem_set hx with h1 | h1
+  · exact h x h1
+  · subst h1; exact hb
+
+theorem allSynced_set {μ : Str → Option M} {s : Sys} (h : AllSynced μ s) (i : Nat) (b : Bundle) (hb : SyncedB μ b) :
+    AllSynced μ (s.set i b) := by
   intro x hx
   rcases List.mem_or_eq_of_mem_set hx with h1 | h1
   · exact h x h1
@@ -1111,58 +1391,70 @@ theorem step_direct_bundles (P : Params) (now : Int) (s s' : Sys) (hb : s.bundle
 
 /-- one step through the cache and the same step done directly, from the same state: same return
 value, same bundles afterwards, and the invariant is kept -/
-theorem step_cached_vs_direct (P : Params) (hV : StrFun P.V) (now : Int) (s : Sys) (hinv : Inv P.V s) (op : Op) :
+theorem step_cached_vs_direct {μ : Str → Option M} (P : Params) (hO : P.order = .byKid) (hV : PerKidFun μ P.V)
+    (hm : MintSynced μ) (now : Int) (s : Sys) (hinv : Inv μ P.V s) (op : Op) :
     (step P now s op).2 = (step P now s op.direct).2 ∧
     (step P now s op).1.bundles = (step P now s op.direct).1.bundles ∧
-    Inv P.V (step P now s op).1 := by
-  obtain ⟨hcl, hso⟩ := hinv
+    Inv μ P.V (step P now s op).1 := by
+  obtain ⟨hcl, hsy, hso⟩ := hinv
   cases op with
   | verify i mode =>
     cases mode with
     | direct =>
-      exact ⟨rfl, rfl, allClean_set hcl i _ (clean_verifyBy _ _ (clean_get hcl i)), hso⟩
+      exact ⟨rfl, rfl, allClean_set hcl i _ (clean_verifyBy _ _ (clean_get hcl i)),
+        allSynced_set hsy i _ (synced_verifyBy _ _ (synced_get hsy i)), hso⟩
     | cached =>
-      have h1 := verifyCached_fst P.V hV s.store hso now P.ttl (s.get i) (clean_get hcl i)
-      have h2 := verifyCached_sound P.V hV s.store hso now P.ttl (s.get i) (clean_get hcl i)
-      simp only [step, Op.direct, Sys.set]
+      have h1 := verifyCached_fst P.V hV s.store hso now P.ttl (s.get i) (clean_get hcl i) (synced_get hsy i)
+      have h2 := verifyCached_sound P.V hV s.store hso now P.ttl (s.get i) (clean_get hcl i) (synced_get hsy i)
+      simp only [step, Op.direct, Sys.set, hO]
       rw [h1]
-      exact ⟨rfl, rfl, allClean_set hcl i _ (clean_verifyBy _ _ (clean_get hcl i)), h2⟩
-  | validate i rs => exact ⟨rfl, rfl, hcl, hso⟩
-  | attenuate i items => exact ⟨rfl, rfl, allClean_set hcl i _ (clean_attenuate _ _ (clean_get hcl i)), hso⟩
+      exact ⟨rfl, rfl, allClean_set hcl i _ (clean_verifyBy _ _ (clean_get hcl i)),
+        allSynced_set hsy i _ (synced_verifyBy _ _ (synced_get hsy i)), h2⟩
+  | validate i rs => exact ⟨rfl, rfl, hcl, hsy, hso⟩
+  | attenuate i items =>
+    exact ⟨rfl, rfl, allClean_set hcl i _ (clean_attenuate _ _ (clean_get hcl i)),
+      allSynced_set hsy i _ (synced_attenuate hm _ _ (synced_get hsy i)), hso⟩
   | discharge i loc ka cb rnds =>
-    exact ⟨rfl, rfl, allClean_set hcl i _ (clean_dischargeWith _ _ _ _ _ _ (clean_get hcl i)), hso⟩
-  | filter i f => exact ⟨rfl, rfl, allClean_set hcl i _ (clean_filter _ _ (clean_get hcl i)), hso⟩
-  | header i => exact ⟨rfl, rfl, hcl, hso⟩
-  | tick => exact ⟨rfl, rfl, hcl, hso⟩
-  | evict k => exact ⟨rfl, rfl, hcl, sound_evict k hso⟩
+    exact ⟨rfl, rfl, allClean_set hcl i _ (clean_dischargeWith _ _ _ _ _ _ (clean_get hcl i)),
+      allSynced_set hsy i _ (synced_dischargeWith hm _ _ _ _ _ _ (synced_get hsy i)), hso⟩
+  | filter i f =>
+    exact ⟨rfl, rfl, allClean_set hcl i _ (clean_filter _ _ (clean_get hcl i)),
+      allSynced_set hsy i _ (synced_filter _ _ (synced_get hsy i)), hso⟩
+  | header i => exact ⟨rfl, rfl, hcl, hsy, hso⟩
+  | tick => exact ⟨rfl, rfl, hcl, hsy, hso⟩
+  | evict k => exact ⟨rfl, rfl, hcl, hsy, sound_evict k hso⟩
 
-theorem step_transparent (P : Params) (hV : StrFun P.V) (now : Int) (s s' : Sys) (hb : s.bundles = s'.bundles)
-    (hinv : Inv P.V s) (op : Op) :
+theorem step_transparent {μ : Str → Option M} (P : Params) (hO : P.order = .byKid) (hV : PerKidFun μ P.V)
+    (hm : MintSynced μ) (now : Int) (s s' : Sys) (hb : s.bundles = s'.bundles) (hinv : Inv μ P.V s) (op : Op) :
     (step P now s op).2 = (step P now s' op.direct).2 ∧
     (step P now s op).1.bundles = (step P now s' op.direct).1.bundles ∧
-    Inv P.V (step P now s op).1 := by
-  obtain ⟨a1, a2, a3⟩ := step_cached_vs_direct P hV now s hinv op
+    Inv μ P.V (step P now s op).1 := by
+  obtain ⟨a1, a2, a3⟩ := step_cached_vs_direct P hO hV hm now s hinv op
   obtain ⟨b1, b2⟩ := step_direct_bundles P now s s' hb op
   exact ⟨a1.trans b1, a2.trans b2, a3⟩
 
 /-- **cache_transparent** on runs: the trace (return value of every step and the state of every
 bundle after it) of a history is the trace of the same history with every verification done directly -/
-theorem run_transparent (P : Params) (hV : StrFun P.V) : ∀ (hist : List (Int × Op)) (s s' : Sys),
-    s.bundles = s'.bundles → Inv P.V s →
+theorem run_transparent {μ : Str → Option M} (P : Params) (hO : P.order = .byKid) (hV : PerKidFun μ P.V)
+    (hm : MintSynced μ) : ∀ (hist : List (Int × Op)) (s s' : Sys),
+    s.bundles = s'.bundles → Inv μ P.V s →
     run P hist s = run P (hist.map fun x => (x.1, x.2.direct)) s'
   | [], _, _, _, _ => rfl
   | (now, op) :: rest, s, s', hb, hinv => by
-    obtain ⟨h1, h2, h3⟩ := step_transparent P hV now s s' hb hinv op
+    obtain ⟨h1, h2, h3⟩ := step_transparent P hO hV hm now s s' hb hinv op
     simp only [run, List.map_cons]
-    rw [h1, h2, run_transparent P hV rest _ _ h2 h3]
+    rw [h1, h2, run_transparent P hO hV hm rest _ _ h2 h3]
 
-theorem inv_init (V : Bundle.Oracle) (pl : Bytes) (hdrs : List Str) : Inv V (init pl hdrs) := by
-  refine ⟨?_, fun e he => by cases he⟩
-  intro b hb
-  simp only [init, List.mem_map] at hb
-  obtain ⟨h, _, rfl⟩ := hb
-  exact clean_parseWith pl h .default
-
+theorem inv_init (V : Bundle.Oracle) (pl : Bytes) (hdrs : List Str) : Inv macOf V (init pl hdrs) := by
+  refine ⟨?_, ?_, fun e he => by cases he⟩
+  · intro b hb
+    simp only [init, List.mem_map] at hb
+    obtain ⟨h, _, rfl⟩ := hb
+    exact clean_parseWith pl h .default
+  · intro b hb
+    simp only [init, List.mem_map] at hb
+    obtain ⟨h, _, rfl⟩ := hb
+    exact synced_parseWith pl h .default
 
 /-! ### isolation -/
 
@@ -1217,7 +1509,7 @@ theorem f7_share (P : Params) (pl : Bytes) (s : Str) (m : M) (cs : CS) (items : 
     (hatt : Bundle.attMac items m = some (s', m', added)) (httl : 1 < P.ttl) :
     ((hrun .share P (f7History items) (f7Init pl s m)).map (·.1)).getLast? = some (.text (headerOf [.verified s' m' (cs ++ added)])) := by
   simp [hrun, f7History, f7Init, hstep, hverifyCached, HSys.get, HSys.set, Heap.view, Heap.tok, Heap.u, Heap.v,
-    isPermAt, Tok.mac?, hloc, dischargesOf, Tok.tickets, hnt, keyOf, key, sortStrs, sortToks, hget, hadd, hV, Ref.u?,
+    isPermAt, Tok.mac?, hloc, dischargesOf, Tok.tickets, hnt, keyOf, sortToks, hget, hadd, hV, Ref.u?,
     Tok.str, Header.joinWith, httl, HBundle.attenuate, Bundle.attenuateTs, Bundle.attTok, hatt, Heap.storeAll, Heap.store,
     HBundle.view, Bundle.header]
   done
@@ -1246,7 +1538,7 @@ theorem f7_copy (P : Params) (pl : Bytes) (s : Str) (m : M) (cs : CS) (items : L
     (hatt : Bundle.attMac items m = some (s', m', added)) (httl : 1 < P.ttl) :
     ((hrun .copy P (f7History items) (f7Init pl s m)).map (·.1)).getLast? = some (.text (headerOf [.verified s m cs])) := by
   simp [hrun, f7History, f7Init, hstep, hverifyCached, HSys.get, HSys.set, Heap.view, Heap.tok, Heap.u, Heap.v,
-    isPermAt, Tok.mac?, hloc, dischargesOf, Tok.tickets, hnt, keyOf, key, sortStrs, sortToks, hget, hadd, hV, Ref.u?,
+    isPermAt, Tok.mac?, hloc, dischargesOf, Tok.tickets, hnt, keyOf, sortToks, hget, hadd, hV, Ref.u?,
     Tok.str, Header.joinWith, httl, HBundle.attenuate, Bundle.attenuateTs, Bundle.attTok, hatt, Heap.storeAll, Heap.store,
     HBundle.view, Bundle.header]
 
